@@ -454,6 +454,11 @@ func (w *World) dedupeShape(fn *ssa.Function) (bool, string) {
 
 // filterLoops checks every append to a NodeSet-typed slice in fn.
 func (w *World) filterLoops(P string, fn *ssa.Function, r *Roles) {
+	type keepSite struct {
+		call *ssa.Call
+		idx  ssa.Value
+	}
+	var keeps []keepSite
 	allInstrs(fn, func(in ssa.Instruction) {
 		c, ok := in.(*ssa.Call)
 		if !ok {
@@ -502,7 +507,65 @@ func (w *World) filterLoops(P string, fn *ssa.Function, r *Roles) {
 			}
 		}
 		w.check(P, "R03.4", "filter append in "+fn.Name(), c.Pos(), good, why)
+		if good {
+			for _, st := range storesInto(al) {
+				if ld, ok := st.Val.(*ssa.UnOp); ok {
+					if ia, ok := ld.X.(*ssa.IndexAddr); ok {
+						keeps = append(keeps, keepSite{c, ia.Index})
+					}
+				}
+			}
+		}
 	})
+	// an element is kept at most once: no path of one iteration passes two appends of the same loop element
+	for i, a := range keeps {
+		for j, b := range keeps {
+			if i == j || a.idx != b.idx {
+				continue
+			}
+			var header *ssa.BasicBlock
+			switch x := a.idx.(type) {
+			case *ssa.Phi:
+				header = x.Block()
+			case *ssa.BinOp:
+				if ph, ok := x.X.(*ssa.Phi); ok {
+					header = ph.Block()
+				}
+			}
+			if header == nil {
+				continue
+			}
+			twice := false
+			if a.call.Block() == b.call.Block() {
+				twice = instrIndex(a.call) < instrIndex(b.call)
+			} else {
+				seen := map[*ssa.BasicBlock]bool{}
+				var walk func(x *ssa.BasicBlock)
+				walk = func(x *ssa.BasicBlock) {
+					if seen[x] || x == header {
+						return
+					}
+					seen[x] = true
+					if x == b.call.Block() {
+						twice = true
+						return
+					}
+					for _, sc := range x.Succs {
+						walk(sc)
+					}
+				}
+				for _, sc := range a.call.Block().Succs {
+					walk(sc)
+				}
+			}
+			if twice && kindExclusive(a.call.Block(), b.call.Block()) {
+				twice = false // the two appends sit under tests for node kinds that no node has together
+			}
+			if twice {
+				w.check(P, "R03.4", "an element is kept at most once in "+fn.Name(), b.call.Pos(), false, fmt.Sprintf("the append at %s is followed, in the same iteration, by a second append of the same element: a node that passes both tests is in the result twice", w.pos(a.call.Pos())))
+			}
+		}
+	}
 }
 
 func ascendingCounter(v ssa.Value) bool {
@@ -665,4 +728,61 @@ func (w *World) accumulatorField(v ssa.Value) bool {
 		})
 	})
 	return n > 0 && all
+}
+
+// kindClassOf: the node kinds of package node fall into classes no node belongs to two of: named nodes (NamedNode,
+// Element, Attribute), namespace, character data, comment, processing instruction.
+func kindClassOf(t types.Type) string {
+	n, _ := nodeIface(t)
+	if n == nil {
+		return ""
+	}
+	switch n.Obj().Name() {
+	case "NamedNode", "Element", "Attribute":
+		return "named"
+	case "Namespace", "CharData", "Comment", "ProcInst":
+		return n.Obj().Name()
+	}
+	return ""
+}
+
+// kindExclusive: blocks a and b are reached only under successful assertions of one node to kinds of different
+// classes.
+func kindExclusive(a, b *ssa.BasicBlock) bool {
+	type test struct {
+		subject ssa.Value
+		class   string
+	}
+	tests := func(blk *ssa.BasicBlock) []test {
+		var out []test
+		for _, at := range guardAtoms(blk) {
+			ex, ok := at.V.(*ssa.Extract)
+			if !ok || ex.Index != 1 || !at.Pol {
+				continue
+			}
+			ta, ok := ex.Tuple.(*ssa.TypeAssert)
+			if !ok {
+				continue
+			}
+			cl := kindClassOf(ta.AssertedType)
+			if cl == "" {
+				continue
+			}
+			// the asserted value: X.Node() of some cursor X
+			subj := ta.X
+			if c, isCall := ta.X.(*ssa.Call); isCall && c.Call.IsInvoke() && c.Call.Method.Name() == "Node" {
+				subj = c.Call.Value
+			}
+			out = append(out, test{subj, cl})
+		}
+		return out
+	}
+	for _, x := range tests(a) {
+		for _, y := range tests(b) {
+			if x.subject == y.subject && x.class != y.class {
+				return true
+			}
+		}
+	}
+	return false
 }
